@@ -330,7 +330,23 @@ pub fn toks_to_bytes(algo: Algo, toks: &[RawTok]) -> Vec<u8> {
 
 /// byte streams for one decoder algorithm
 pub fn stream(algo: Algo, max_tokens: usize) -> impl Strategy<Value = Vec<u8>> {
-    proptest::collection::vec(raw_tok(), 0..=max_tokens).prop_map(move |t| toks_to_bytes(algo, &t))
+    (proptest::collection::vec(raw_tok(), 0..=max_tokens), any::<u16>()).prop_map(move |(t, r)| toks_to_bytes(algo, &repeat_toks(&t, r)))
+}
+
+/// one case in 32 is long: the token list repeated 4..=35 times with varied table parameters
+/// (hundreds to thousands of bytes), so that whatever depends on long inputs is reached too
+pub fn repeat_toks(t: &[RawTok], r: u16) -> Vec<RawTok> {
+    if r % 32 != 5 || t.is_empty() {
+        return t.to_vec();
+    }
+    let reps = 4 + (r >> 8) as usize % 32;
+    let mut v = Vec::with_capacity(t.len() * reps);
+    for i in 0..reps {
+        for &(k, a, b, c) in t {
+            v.push((k, a.wrapping_add((i as u32).wrapping_mul(0x9E37_79B9)), b, c));
+        }
+    }
+    v
 }
 
 /// does the stream contain anything but ASCII?
